@@ -860,11 +860,40 @@ def rule_mp_order(ctx, m):
         ok = len(cands) == 1
         if ok:
             c = cands[0]
+            item2 = ('idx', ('var', prm), ('num', 2))
+            # the options: item[2] itself or a local copy of it (dict(item[2]), item[2].copy(), {**item[2], ...}) with entries added
+            copies = {t_.target for t_ in walk_stmts(g.body) if t_.k == 'assign' and t_.target[0] == 'var' and (
+                t_.value in (('call', ('var', 'dict'), (item2,), ()), ('call', ('attr', item2, 'copy'), (), ())) or
+                (t_.value[0] == 'dict' and any(k_ is None and v_ == item2 for k_, v_ in t_.value[1])))}
             ok = tuple(c[2][:2]) == (('idx', ('var', prm), ('num', 0)), ('idx', ('var', prm), ('num', 1))) and \
-                any(k is None and v == ('idx', ('var', prm), ('num', 2)) for k, v in c[3])
+                any(k is None and (v == item2 or v in copies) for k, v in c[3])
         ctx.check(ok, 'R-ITER', mod.path, q, 'work item order',
                   'the worker must compute distance(item[0], item[1], **item[2]) -- (row series, column series, options) as the pool sites build it; swapped series change '
                   'the result whenever the settings are not symmetric (per-series psi)', g.line)
+    # the options dictionary of a work item is `settings.kwargs()` (possibly with None -> 0): a worker that also passes one of its keys explicitly
+    # calls distance(..., key=..., **{..., key: ...}) -- TypeError "multiple values for keyword argument" on every call
+    from .fwd import settings_dict_keys
+    opts_src = None
+    for s_ in f.body:
+        if s_.k == 'assign' and s_.target[0] == 'var' and s_.value[0] == 'call' and (dotted(s_.value[1]) or '').endswith('.kwargs'):
+            used_in_items = any(x == s_.target for st_ in walk_stmts(f.body) for e_ in stmt_exprs(st_) for c_ in walk_expr(e_)
+                                if c_[0] in ('comp', 'tuple') for x in walk_expr(c_))
+            if used_in_items:
+                opts_src = s_
+    keys = {k for k, v in (settings_dict_keys(m, 'kwargs') or []) if k} if opts_src is not None else set()
+    for q in ('_distance_with_params', '_distance_with_params_ndim', '_distance_c_with_params', '_distance_c_with_params_ndim'):
+        g = mod.funcs.get(q)
+        prm = g.args[0]
+        for st_ in walk_stmts(g.body):
+            for e_ in stmt_exprs(st_):
+                for x in walk_expr(e_):
+                    it2 = ('idx', ('var', prm), ('num', 2))
+                    cps = {t_.target for t_ in walk_stmts(g.body) if t_.k == 'assign' and t_.target[0] == 'var' and any(y == it2 for y in walk_expr(t_.value))}
+                    if x[0] == 'call' and any(k is None and (v == it2 or v in cps) for k, v in x[3]):
+                        dup = sorted(k for k, v in x[3] if k is not None and k in keys)
+                        ctx.check(not dup, 'R-ITER', mod.path, q, 'explicit keyword also in the options dictionary',
+                                  'the worker passes %s explicitly and again through **options: the work item\'s options are DTWSettings.kwargs(), which contains %s -- every call '
+                                  'raises TypeError (multiple values for keyword argument), so the multiprocessing branch cannot produce a matrix' % (dup, dup), st_.line)
     ctx.count('pool sites', n)
     ctx.count('pool workers', workers)
     return n
